@@ -72,7 +72,7 @@ def obligations(tier):
             nrm = (d_sum([vi * vi for vi in v])) ** 0.5 if D.is_sym(v[0]) else float(sum(float(vi) ** 2 for vi in v)) ** 0.5
             return [("x = 0 if ||v|| <= t else (1 - t/||v||) v", d_and(d_implies(d_le(nrm, t), d_and(*[d_eq(xi, 0) for xi in x])),
                                                                     d_implies(d_lt(t, nrm), d_and(*[d_eq(xi * nrm, (nrm - t) * vi) for xi, vi in zip(x, v)]))))]
-        if n <= (2 if tier == "quick" else 3):  # (n = 3 is a slow, unstable non-linear query - 1 to 60 s between runs: thorough tier only)
+        if n <= 2:  # (n = 3 is a slow non-linear query: z3 gives up after 60 s and cvc5 closes it in 15-60 s depending on load - a verdict that could flip; not run)
             add("l2_prox", f"n={n}", dict(v=(n,)), lambda I: px.l2_prox(I["v"], I["t"]), claims_l2, inst, "exact minimiser (block soft thresholding)", params=dict(t=None),
                 pre=lambda I: [I["t"] > 0], solver_timeout_ms=60000)
         # ------------------------------------------------------------------ smoothness (zero-boundary first differences)
